@@ -17,7 +17,7 @@ def run(ctx, only=None):
                 'workers insert unique values into 1-4 hot and 64 cold keys of CRelIndex / CLatIndex / CRelNoIndex and race insert_if_not_present on CRelFullIndex (perturbation armed '
                 'in half of the rounds); retained values, duplicates and exactly-one-winner per key checked. case = one sequence / round; non-trivial = >= 2 operations')
     ctx.assumptions = ['multimap / map models in harness/libmon/src/bin/c19_index.rs', 'on a key clash the full index only ever receives equal values (as from generated code)']
-    if not any(r.get('done') for r in recs):
+    if not any(r.get('done') for r in recs) and not libmon.report_crash(ctx, 'c19_index', args, rc, err):
         ctx.inconc('monitor binary did not finish (rc=%s): %s' % (rc, err[-300:]))
     for r in recs:
         if 'sequences' in r:
